@@ -45,13 +45,13 @@ func (h *harness) opRpmHdr(b []byte, how string) {
 		if wantedAllocEstimate(b)*2 >= alloc-rpmAllocBound(len(b)) {
 			cls = knownRpmQuadratic
 		}
-		h.r.Fail(cls, fmt.Sprintf("rpm-header-allocation-out-of-proportion allocated=%d header-bytes=%d how=%s header=%s", alloc, len(b), how, hx.Hex(b)))
+		h.fail(cls, fmt.Sprintf("rpm-header-allocation-out-of-proportion allocated=%d header-bytes=%d how=%s header=%s", alloc, len(b), how, hx.Hex(b)))
 	}
 	switch out {
 	case "panic":
-		h.r.Fail("", "rpm-header-panic (Header.Parse + Info.Load) how="+how+" header="+hx.Hex(b))
+		h.fail("", "rpm-header-panic (Header.Parse + Info.Load) how="+how+" header="+hx.Hex(b))
 	case "hang":
-		h.r.Fail("", "rpm-header-runaway-reads how="+how+" header="+hx.Hex(b))
+		h.fail("", "rpm-header-runaway-reads how="+how+" header="+hx.Hex(b))
 	}
 	// the statement on the implementation: an accepted header only has entries inside the data arena
 	if res.Stage != "parse" && res.Stage != "" {
@@ -64,7 +64,7 @@ func (h *harness) opRpmHdr(b []byte, how string) {
 		}
 		for _, e := range res.Entries[start:] {
 			if e[2] < 0 || e[2] > res.DataSize || e[3] < 1 || e[3] > res.DataSize || e[1] < 1 || e[1] > 9 {
-				h.r.Fail("", fmt.Sprintf("rpm-header-accepted-entry-out-of-bounds tag=%d type=%d offset=%d count=%d datasize=%d header=%s", e[0], e[1], e[2], e[3], res.DataSize, hx.Hex(b)))
+				h.fail("", fmt.Sprintf("rpm-header-accepted-entry-out-of-bounds tag=%d type=%d offset=%d count=%d datasize=%d header=%s", e[0], e[1], e[2], e[3], res.DataSize, hx.Hex(b)))
 				break
 			}
 		}
@@ -142,9 +142,9 @@ func (h *harness) opBdb(b []byte, how string) {
 	})
 	switch out {
 	case "panic":
-		h.r.Fail("", "bdb-panic (PackageDB.Parse + AllHeaders + reading the headers) how="+how+" db="+hx.Hex(b))
+		h.fail("", "bdb-panic (PackageDB.Parse + AllHeaders + reading the headers) how="+how+" db="+hx.Hex(b))
 	case "hang":
-		h.r.Fail("", fmt.Sprintf("bdb-does-not-terminate (more than %d reads of a %d-byte database) how=%s db=%s", lr.limit, len(b), how, hx.Hex(b)))
+		h.fail("", fmt.Sprintf("bdb-does-not-terminate (more than %d reads of a %d-byte database) how=%s db=%s", lr.limit, len(b), how, hx.Hex(b)))
 	}
 	for _, m := range strings.Split(how, "+") {
 		h.r.Count("bdb:" + m)
@@ -214,13 +214,13 @@ func (h *harness) opNdb(b []byte, how string) {
 		if ndbChecksumWork(b)*2 >= lr.bytes-ndbReadBound(len(b)) {
 			cls = knownNdbQuadratic
 		}
-		h.r.Fail(cls, fmt.Sprintf("ndb-reads-out-of-proportion bytes-read=%d file-bytes=%d how=%s db=%s", lr.bytes, len(b), how, hx.Hex(b)))
+		h.fail(cls, fmt.Sprintf("ndb-reads-out-of-proportion bytes-read=%d file-bytes=%d how=%s db=%s", lr.bytes, len(b), how, hx.Hex(b)))
 	}
 	switch out {
 	case "panic":
-		h.r.Fail("", "ndb-panic (PackageDB.Parse + AllHeaders) how="+how+" db="+hx.Hex(b))
+		h.fail("", "ndb-panic (PackageDB.Parse + AllHeaders) how="+how+" db="+hx.Hex(b))
 	case "hang":
-		h.r.Fail("", fmt.Sprintf("ndb-does-not-terminate (more than %d reads of a %d-byte database) how=%s db=%s", lr.limit, len(b), how, hx.Hex(b)))
+		h.fail("", fmt.Sprintf("ndb-does-not-terminate (more than %d reads of a %d-byte database) how=%s db=%s", lr.limit, len(b), how, hx.Hex(b)))
 	}
 	for _, m := range strings.Split(how, "+") {
 		h.r.Count("ndb:" + m)
